@@ -44,7 +44,7 @@ LAW_BATCHES = 4
 
 def plan(tier):
     if tier == "quick":
-        return [("refine", 5000), ("law", LAW_CFGS[tier] * LAW_BATCHES)]
+        return [("refine", 25000), ("law", LAW_CFGS[tier] * LAW_BATCHES)]
     return [("refine", 300000), ("law", LAW_CFGS[tier] * LAW_BATCHES)]
 
 
